@@ -1,5 +1,6 @@
 import RvModel.Prelude
 import RvModel.Gen.Defs
+import RvModel.Hand.Legendre
 /-!
   Hand.Mixture — hand model of `src/dist/mixture.rs` (`Mixture<Fx>`) over an ABSTRACT component family.
 
@@ -216,6 +217,108 @@ def bernComp (b : Gen.Bernoulli α) : Comp α Bool :=
   { lnF := Gen.Bernoulli.ln_f_bool b, f := Gen.Bernoulli.f_bool b, cdf := Gen.Bernoulli.cdf_bool b,
     mean := Gen.Bernoulli.mean_real b, variance := Gen.Bernoulli.variance_real b,
     supports := Gen.Bernoulli.supports_bool b }
+
+/-- `Fx = Pareto` observed at `f64`: support `[scale, ∞)` depends on the parameter, and `ln_f` is NOT `-inf` below
+    the scale (pareto.rs:211-219 evaluates the formula everywhere) — the family that separates `pdf` from `f` -/
+def paretoComp (p : Gen.Pareto α) : Comp α α :=
+  { lnF := Gen.Pareto.ln_f_real p, f := Gen.Pareto.f_real p, cdf := Gen.Pareto.cdf_real p,
+    mean := Gen.Pareto.mean_real p, variance := Gen.Pareto.variance_real p,
+    supports := Gen.Pareto.supports_real p }
+
+/-- `Fx = Uniform` observed at `f64`: support `[a, b]` -/
+def unifComp (u : Gen.Uniform α) : Comp α α :=
+  { lnF := Gen.Uniform.ln_f_real u, f := Gen.Uniform.f_real u, cdf := Gen.Uniform.cdf_real u,
+    mean := Gen.Uniform.mean_real u, variance := Gen.Uniform.variance_real u,
+    supports := Gen.Uniform.supports_real u }
+
+/-- `Fx = Categorical` observed at `usize`: support `{0, …, k-1}`; `ln_f` outside the support indexes out of bounds
+    (a panic in Rust, NaN in the generated model) — only `pmf`, `ln_pmf`, `supports` are total.  No `Mean<f64>`. -/
+def catComp (c : Gen.Categorical α) : Comp α Nat :=
+  { lnF := Gen.Categorical.ln_f_nat c, f := Gen.Categorical.f_nat c, cdf := Gen.Categorical.cdf_nat c,
+    mean := none, variance := none, supports := Gen.Categorical.supports_nat c }
+
+/-- a component known by its moments only (for `mean` / `variance`, which call nothing else) -/
+def momentComp (mean variance : Option α) : Comp α Unit :=
+  { lnF := fun _ => nan, f := fun _ => nan, cdf := fun _ => nan, mean := mean, variance := variance,
+    supports := fun _ => true }
+
+/-! ## `Entropy for Mixture<Gaussian>`: quadrature of `-f ln f` (mixture.rs:799-915) -/
+
+/-- what the quadrature entropy needs from a continuous component besides `Comp`: `Mode<f64>::mode`,
+    `QuadBounds::quad_bounds` -/
+structure QComp (α : Type) where
+  comp : Comp α α
+  mode : Option α
+  qlo : α
+  qhi : α
+
+/-- mixture.rs:812-843 `continuous_mixture_quad_points`: the `filter_map` with the mutable `state`, as a fold.
+    Input: `(mode, std = variance.map(sqrt))` of the components of the mode-sorted mixture, in order.
+    A mode is kept when it is farther from the last kept mode than the SMALLER of the two standard deviations
+    (mixture.rs:825-827, `s1.unwrap_or(INFINITY).min(s2.unwrap_or(INFINITY))`). -/
+def quadPoints (ms : List (Option α × Option α)) : List α :=
+  (ms.foldl (fun (acc : (Option α × Option α) × List α) (c : Option α × Option α) =>
+      match acc.1.1, c.1 with
+      | some m1, some m2 =>                                                        -- :824-834
+        if RealLike.gt (m2 - m1) (RealLike.min (acc.1.2.getD posInf) (c.2.getD posInf))
+        then (c, acc.2 ++ [m2]) else acc
+      | none, some m2 => (c, acc.2 ++ [m2])                                        -- :835-838
+      | _, none => acc)                                                            -- :839
+    ((none, none), [])).2
+
+/-- mixture.rs:799-810 `sort_mixture_by_mode`: stable sort of the (weight, component) pairs by mode
+    (`partial_cmp`, `None < Some`; NaN modes are outside the model), then `Mixture::try_from(..).unwrap()` -/
+def sortByMode (ps : List (α × QComp α)) : List (α × QComp α) :=
+  ps.mergeSort (fun a b => RealLike.le (a.2.mode.getD negInf) (b.2.mode.getD negInf))
+
+/-- mixture.rs:846-895 `cm_quad`: 16-point Gauss–Legendre on `[lower, p₀]`, between consecutive break points and
+    on `[p_last, upper]`; `none` = the panic of `points.len() - 1` / `points[0]` on an empty point list -/
+def cmQuad (g : α → α) (lower upper : α) (points : List α) : Option α :=
+  match points with
+  | [] => none
+  | p0 :: rest =>
+    let t := Hand.Legendre.glTableG (α := α) 16                                    -- :854-855
+    let q := fun (a b : α) => Hand.Legendre.glQuadCachedG g a b t.1 t.2
+    let qa := q lower p0                                                           -- :865-870
+    let qb := q ((p0 :: rest).getLastD p0) upper                                   -- :871-876
+    let qm := sumL (((p0 :: rest).zip rest).map (fun ab => q ab.1 ab.2))            -- :878-892
+    some (qa + qm + qb)                                                            -- :894
+
+/-- mixture.rs:776-797 `dual_step_quad_bounds!`: start from the mean, widen by every component's bounds -/
+def quadBounds (weights : List α) (cs : List (QComp α)) : Option (α × α) :=
+  match mean (⟨weights, cs.map (·.comp)⟩ : Mix α α) with
+  | none => none                                                                   -- `self.mean().unwrap()`
+  | some center =>
+    some (cs.foldl (fun (lr : α × α) c =>
+      (if RealLike.lt c.qlo lr.1 then c.qlo else lr.1, if RealLike.gt c.qhi lr.2 then c.qhi else lr.2))
+      (center, center))
+
+/-- mixture.rs:898-915 `quadrature_entropy!`: `-cm_quad(|x| ln_f(x).exp() * ln_f(x), self)`; `none` = a panic
+    (`mean().unwrap()`, `try_from(..).unwrap()` on invalid weights, empty point list).  The integration bounds are a
+    parameter so that the correspondence run can feed the implementation's `quad_bounds()` (they go through
+    `erf_inv` at `±(1 − 1e-12)`, where two implementations agree to ~1e-7 only; the Gauss–Legendre sum is sensitive
+    to the end points when a narrow component sits next to them) -/
+def entropyQuadB (weights : List α) (cs : List (QComp α)) (bounds : Option (α × α)) : Option α :=
+  let m : Mix α α := ⟨weights, cs.map (·.comp)⟩
+  let g := fun x => let l := lnF m x; RealLike.exp l * l
+  match bounds with
+  | none => none
+  | some (lower, upper) =>
+    let sorted := sortByMode (weights.zip cs)                                      -- :860 (on a clone)
+    match new (sorted.map (·.1)) (sorted.map (·.2.comp)) with                      -- :809 `try_from(..).unwrap()`
+    | .error _ => none
+    | .ok _ =>
+      let pts := quadPoints (sorted.map (fun p => (p.2.mode, p.2.comp.variance.map RealLike.sqrt)))
+      (cmQuad g lower upper pts).map (fun v => -v)
+
+/-- the entropy with the mixture's own `quad_bounds()` -/
+def entropyQuad (weights : List α) (cs : List (QComp α)) : Option α :=
+  entropyQuadB weights cs (quadBounds weights cs)
+
+/-- `Fx = Gaussian` with its mode and `quad_bounds = interval(0.999_999_999_999)` (gaussian.rs:403-407) -/
+def gaussQComp (g : Gen.Gaussian α) : QComp α :=
+  let b := Gen.Gaussian.interval_real g (0.999999999999 : α)
+  { comp := gaussComp g, mode := Gen.Gaussian.mode_real g, qlo := b.1, qhi := b.2 }
 
 /-- a component that only carries two numbers (for the structural operations `combine`, `set_components`,
     pair conversion, which never call a component method: they are parametric in `Fx`) -/
